@@ -1,9 +1,11 @@
 package main
 
 import (
+	"encoding/json"
 	"flag"
 	"fmt"
 	"os"
+	"os/exec"
 	"path/filepath"
 	"runtime/debug"
 	"sort"
@@ -115,18 +117,19 @@ func cmdCheck(args []string) (exit int) {
 	d.Run(c, a)
 	extra := map[string]interface{}{"architectures": []string{"host"}}
 	if *tier == "thorough" {
-		p386, err := Load(abs, false, "386")
-		if err != nil {
-			return fail("GOARCH=386: " + err.Error())
-		}
-		c.P = p386
-		d.Run(c, &Analysis{P: p386})
-		c.P = p
-		extra["architectures"] = []string{"host", "386"}
+		// A second pass under GOARCH=386 was planned (DESIGN.md §2.1) but the
+		// dependencies (hslam/writer, hslam/splice) do not type-check on 32-bit
+		// targets, so no whole-program load exists there. The thorough tier
+		// instead type-checks ./... (examples and benchmarks use the public
+		// API), runs property-specific extras (compiler BCE facts for C08) and
+		// the seeded-mutant controls of this property.
 		if d.Thorough != nil {
 			for k, v := range d.Thorough(c, a, *verif) {
 				extra[k] = v
 			}
+		}
+		for k, v := range runControls(*verif, abs, *prop) {
+			extra[k] = v
 		}
 	}
 	return c.Finish(*verif, d.Meta, seed, extra)
@@ -144,4 +147,39 @@ func cmdExplain(args []string) int {
 	os.Stdout.Write(b)
 	fmt.Println()
 	return 0
+}
+
+// runControls executes the seeded-mutant self-test of one property
+// (controls/run.py) and returns its summary for the evidence file. Control
+// results never produce a VIOLATION line.
+func runControls(verifDir, repo, prop string) map[string]interface{} {
+	spec := filepath.Join(verifDir, "controls", prop+".json")
+	if _, err := os.Stat(spec); err != nil {
+		return map[string]interface{}{"controls": "none defined"}
+	}
+	tmp, err := os.CreateTemp("", "controls-*.json")
+	if err != nil {
+		return map[string]interface{}{"controls": "error: " + err.Error()}
+	}
+	tmp.Close()
+	defer os.Remove(tmp.Name())
+	cmd := exec.Command("python3", filepath.Join(verifDir, "controls", "run.py"), "-j", "8", "--repo", repo, prop)
+	cmd.Env = append(os.Environ(), "CONTROLS_JSON="+tmp.Name())
+	out, _ := cmd.CombinedOutput()
+	b, _ := os.ReadFile(tmp.Name())
+	var sum map[string]struct {
+		Applicable int             `json:"applicable"`
+		Detected   int             `json:"detected"`
+		Results    [][]interface{} `json:"results"`
+	}
+	if json.Unmarshal(b, &sum) != nil || sum[prop].Applicable == 0 {
+		return map[string]interface{}{"controls": "could not run: " + tail(string(out), 300)}
+	}
+	var missed []interface{}
+	for _, r := range sum[prop].Results {
+		if len(r) >= 2 && r[1] != "detected" && r[1] != "skipped" {
+			missed = append(missed, r)
+		}
+	}
+	return map[string]interface{}{"controls_applicable": sum[prop].Applicable, "controls_detected": sum[prop].Detected, "controls_not_detected": missed}
 }
